@@ -252,7 +252,7 @@ func (d *Decoder) readObjectDef() (interface{}, error) {
 	tag, err := d.readTag()
 	if err != nil {
 		hlog.Debugf("reading tag err:%v", err)
-		return nil, nil //ignore
+		return nil, tagReadError(err)
 	}
 
 	if objectLenTag(tag) {
